@@ -403,14 +403,47 @@ func localFactsAt(b *ssa.BasicBlock) []Fact {
 			continue
 		}
 		cond, truth := iff.Cond, p.Succs[0] == cur
-		for {
-			u, isNot := cond.(*ssa.UnOp)
-			if !isNot || u.Op != token.NOT {
-				break
-			}
-			cond, truth = u.X, !truth
+		out = appendCondFacts(out, cond, truth, 0)
+	}
+	return out
+}
+
+// appendCondFacts records cond == truth and what it implies: negations are unfolded, and a verdict kept in a boolean
+// (`ok := a && b`, `case a || b:` of a tagless switch — a phi of constants and conditions) is resolved when only one of
+// its incoming edges can carry that truth value: then the facts of that edge hold as well.
+func appendCondFacts(out []Fact, cond ssa.Value, truth bool, depth int) []Fact {
+	for {
+		u, isNot := cond.(*ssa.UnOp)
+		if !isNot || u.Op != token.NOT {
+			break
 		}
-		out = append(out, Fact{cond, truth})
+		cond, truth = u.X, !truth
+	}
+	out = append(out, Fact{cond, truth})
+	phi, ok := cond.(*ssa.Phi)
+	if !ok || depth > 4 {
+		return out
+	}
+	feasible := -1
+	n := 0
+	for k, e := range phi.Edges {
+		if b, isK := constBool(e); isK && b != truth {
+			continue // this edge carries the opposite constant
+		}
+		feasible = k
+		n++
+	}
+	if n != 1 {
+		return out
+	}
+	e := phi.Edges[feasible]
+	pred := phi.Block().Preds[feasible]
+	if _, isK := constBool(e); !isK {
+		out = appendCondFacts(out, e, truth, depth+1)
+	}
+	// what held on the way into that predecessor (same-function facts only; no recursion into phis of the same block)
+	if pred != phi.Block() {
+		out = append(out, localFactsAt(pred)...)
 	}
 	return out
 }
